@@ -48,19 +48,19 @@ PROPS = {
     'C01': dict(
         components=[(V, 'l1_semantics', {})] + [(V, 'u1_search', {}), (V, 'u1_iter', {}),
                     sem('lf,ll', 'find,iter,spans'), sem('lf,ll', 'find,iter', families='deep,bytes,many'),
-                    ('kani', 'pattern_raw', {}), ('kani', 'search_leaf', {}), b('pc', aspects='find,iter', mode='api')],
+                    ('kani', 'pattern_raw', {}), ('kani', 'search_leaf', {}), b('pc', aspects='find,iter', mode='api'), b('packed')],
         level_text='Proof (Verus, unbounded in haystack/span): the real try_find_fwd/try_find_fwd_imp/get_match return the abstract run answer find_spec ("keep the last match, stop at dead state or span end") of any automaton satisfying the Automaton contract AC, and FindIter::next/handle_overlapping_empty_match/search implement the iterator step relation of the statement (restart at previous end, empty-match rule). Kani (bounded by length): the confirmation compare of the packed prefilter (is_equal_raw/is_prefix) looks at every byte. Bounded stand-in: leftmost-first/longest definition vs the real builders on all small pattern lists, and with every prefilter variant active (long patterns, near-miss haystacks).',
         level_note=LEMMA_NOTE + COMMON_NOTE,
     ),
     'C02': dict(
         components=[(V, 'l1_semantics', {}), ('kani', 'search_leaf', {})] + [(V, 'u1_search', {}), (V, 'u1_iter', {}),
-                    sem('std', 'find,iter,spans'), sem('std', 'find,iter', families='deep,bytes')],
+                    sem('std', 'find,iter,spans'), sem('std', 'find,iter', families='deep,bytes'), b('pc', aspects='find,iter', mode='api')],
         level_text='Proof (Verus): try_find_fwd forces earliest for standard automata (dispatcher obligation) and the loop returns at the first match state (find_spec with earliest); iterator as in C01. Bounded stand-in: earliest-end/longest/first-supplied definition vs the real builders.',
         level_note=LEMMA_NOTE + COMMON_NOTE,
     ),
     'C03': dict(
         components=[(V, 'l1_semantics', {})] + [(V, 'u1_overlap', {}),
-                    sem('std', 'ov,spans'), sem('std', 'ov', families='deep,bytes'), b('pc', aspects='ov', mode='api')],
+                    sem('std', 'ov,spans'), sem('std', 'ov', families='deep,bytes'), b('pc', aspects='ov', mode='api'), b('nested')],
         level_text='Proof (Verus): every call of the real try_find_overlapping_fwd(_imp) on an OverlappingState reports the head of ov_remaining(state) (abstraction function over id/at/next_match_index) and leaves its tail, or reports None forever once it is empty — for all call-history prefixes, haystacks, spans. Bounded stand-in: the listing equals all occurrences exactly once in (end, longer-first, id) order on the real builders.',
         level_note=LEMMA_NOTE + COMMON_NOTE,
     ),
@@ -108,9 +108,9 @@ PROPS = {
         level_note=COMMON_NOTE + ' The trie construction with both-case edges is a builder (bounded stand-in only).',
     ),
     'C12': dict(
-        components=[(V, 'u1_iter', {}), (V, 'u7_replace', {}), b('replace')],
+        components=[(V, 'u1_iter', {}), (V, 'u7_replace', {}), (V, 'u7_replace_str', {}), b('replace')],
         level_text='Proof (Verus): the real try_replace_all_with_bytes never slices out of bounds or panics, terminates, hands the closure exactly (match of the iterator, haystack[m.start..m.end]) (closure precondition obligation) and is rejected only by configuration; the iterator it is driven by yields increasing in-span matches (u1_iter). Bounded stand-in: replace_all / replace_all_bytes / closure variants with early stop vs splice definition on multi-byte UTF-8 haystacks and byte patterns that split code points.',
-        level_note=COMMON_NOTE + ' Output equality with the splice definition is decided by the bounded stand-in only (the closure is opaque to the proof); the &str variants are covered by the bounded stand-in only.',
+        level_note=COMMON_NOTE + ' Output equality with the splice definition is decided by the bounded stand-in only (the closure is opaque to the proof). The &str driver try_replace_all_with is proved (u7_replace_str) over trusted stubs for the str / String operations (is_char_boundary, slicing at boundaries, push_str): it never slices off a character boundary, skips exactly the matches with an end inside a character, and hands the closure the match text.',
     ),
     'C13': dict(
         components=[(V, 'u6_gates', {})] + [('kani', 'gates_leaf', {})] + [(V, 'u1_search', {}), (V, 'u1_overlap', {}), (V, 'u1_iter', {}), b('cfgprod')],
@@ -123,12 +123,12 @@ PROPS = {
         level_note=COMMON_NOTE,
     ),
     'C15': dict(
-        components=[('kani', 'search_leaf', {}), ('kani', 'pattern_raw', {}), ('kani', 'teddy_searcher', {}), (V, 'u5_packed_api', {}), (V, 'u5_rabinkarp', {}), (V, 'u3_dfa', {}), (V, 'u3_nnfa', {}), (V, 'u3_cnfa', {})] + U1 + U2 + [(V, 'u7_replace', {}), b('packed', mode='safety'), b('pc', mode='safety'), b('replace', mode='safety')],
+        components=[('kani', 'search_leaf', {}), ('kani', 'pattern_raw', {}), ('kani', 'teddy_searcher', {}), (V, 'u5_packed_api', {}), (V, 'u5_rabinkarp', {}), (V, 'u3_dfa', {}), (V, 'u3_nnfa', {}), (V, 'u3_cnfa', {})] + U1 + U2 + [(V, 'u7_replace', {}), (V, 'u7_replace_str', {}), b('packed', mode='safety'), b('pc', mode='safety'), b('replace', mode='safety')],
         level_text='Proof (Verus): every index, slice, subtraction, addition, unwrap/expect/assert!/debug_assert! in the extracted search functions is a discharged obligation; reported matches satisfy start <= end <= len and pid < pattern count (match_in lemmas). Bounded stand-in for the raw-pointer SIMD code: all packed variants on exactly-sized allocations for lengths 0..=100.',
         level_note=COMMON_NOTE + ' Raw-pointer code (Teddy, is_prefix_raw) is covered by bounded runs only until the Kani unit lands.',
     ),
     'C16': dict(
-        components=[(V, 'u1_search', {}), (V, 'u1_recipe', {}), (V, 'u3_dfa', {}), (V, 'u3_nnfa', {}), (V, 'u3_cnfa', {}), (V, 'u1_forward', {}), ('kani', 'nnfa_leaf', {}), b('ac', families='small,abc,ci,many,wide'), b('repr'), b('repr-nnfa'), b('repr-cnfa'), sem('std,lf,ll', 'recipe', families='small,abc,deep', cfgs='low'), b('pc', aspects='recipe', mode='api')],
+        components=[(V, 'u1_search', {}), (V, 'u1_recipe', {}), (V, 'u3_dfa', {}), (V, 'u3_nnfa', {}), (V, 'u3_cnfa', {}), (V, 'u1_forward', {}), ('kani', 'nnfa_leaf', {}), b('ac', families='small,abc,ci,many,wide'), b('repr'), b('repr-nnfa'), b('repr-cnfa'), sem('std,lf,ll', 'recipe', families='small,abc,deep', cfgs='low'), b('pc', aspects='recipe', mode='api'), b('nested')],
         level_text='The Automaton contract AC is the hypothesis the proved search loops consume (Verus). The search routine printed in the trait documentation is cut out of the doc comment and proved to return the same find_spec as the built-in search (u1_recipe). For dfa::DFA the accessors themselves are proved (u3_dfa) under the representation invariant dfa_wf: next_state never indexes out of bounds and returns a state id, the dead state is absorbing, is_dead/is_match/is_special/is_start are the id comparisons of the layout, dead and match imply special, match_len/match_pattern index a non-empty list of valid pattern ids, start_state fails exactly for the mode whose start id is the dead state; dfa_wf is executed on the whole table of every real DFA of the bounded space (repr, hook H1). The same for the two NFAs: nfa::contiguous (u3_cnfa: next_state over the packed u32 encoding with its dense / one-transition / sparse states, failure loop, match_len/match_pattern decoders, all index arithmetic and bit operations) and nfa::noncontiguous (u3_nnfa: next_state with its failure loop, follow_transition with the dense row; the three iterator-closure helpers follow_transition_sparse/match_len/match_pattern are outside the Verus subset and are checked against the same definitions by Kani group nnfa_leaf, bounded by table size 5), under cnfa_wf / nnfa_wf, executed on every state x byte of every real NFA of the bounded space (repr-cnfa, repr-nnfa). Bounded stand-in, exhaustive per automaton: every clause of AC evaluated on all reachable states x 256 bytes x both anchoring arguments of every automaton of the bounded pattern space.',
         level_note=COMMON_NOTE,
     ),
@@ -145,7 +145,7 @@ PROPS = {
         level_note=COMMON_NOTE + ' Writer-fault half: try_stream_replace_all_with propagates every error with `?` and never panics (u2_replace); that the bytes written before a writer fault are a prefix of the fault-free output is decided by the bounded companion only.',
     ),
     'C19': dict(
-        components=[(V, 'u1_search', {}), (V, 'u1_overlap', {}), (V, 'u3_nnfa', {}), (V, 'u3_cnfa', {}), (V, 'u3_dfa', {}), b('faildepth'), b('repr-nnfa'), b('repr-cnfa')],
+        components=[(V, 'u1_search', {}), (V, 'u1_overlap', {}), (V, 'u3_nnfa', {}), (V, 'u3_cnfa', {}), (V, 'u3_dfa', {}), (V, 'u7_replace', {}), (V, 'u7_replace_str', {}), b('faildepth'), b('repr-nnfa'), b('repr-cnfa'), b('scaling')],
         level_text='Proof (Verus): both search loops perform one next_state call per iteration and every iteration strictly increases the position (decreases clauses), so at most one transition per byte. The real next_state of both NFAs is proved to terminate with the potential argument behind the amortised bound: failure steps + rank(result) <= rank(state) + 1 for any rank function that strictly decreases along the failure link of every state with an undefined transition and grows by at most one along a transition (tagged [C19] obligations in u3_nnfa / u3_cnfa; such a rank — breadth-first depth — is exhibited on every real NFA of the bounded space by repr-nnfa / repr-cnfa); next_state of the DFA is a single table lookup without a loop (u3_dfa). Bounded stand-in through hooks: depth(fail(s)) < depth(s) for every state of the noncontiguous NFA; counters: transitions <= span length, failure traversals <= transitions (NFAs), zero (DFA).',
         level_note=COMMON_NOTE,
     ),
